@@ -1,5 +1,6 @@
 #![allow(clippy::all)]
 pub mod dto;
+pub mod collect_ser;
 pub mod engine;
 pub mod model;
 pub mod oracle_xml;
